@@ -121,7 +121,7 @@ CLAIMS = {
         "to the serial engine's result (par_eq_serial) and independent of the schedule (par_schedule_independent). Tied by ascent_par! twins of generated "
         "relational / lattice / aggregation programs, with and without #![inter_rule_parallelism], in pools of 1..16 threads under seeded perturbation of every "
         "concurrent index insert (hook), vs the serial model and the naive oracle. PARTIAL: lattices and aggregation in parallel mode are covered by the tie "
-        "only (finding F5); deadlock-freedom, DashMap/boxcar/RwLock/Mutex atomicity, rayon completion and memory ordering are assumptions, exercised not proved.",
+        "only (finding F5, aggregates over a lattice in parallel mode, was repaired by fix 058163a and its witness must pass); deadlock-freedom, DashMap/boxcar/RwLock/Mutex atomicity, rayon completion and memory ordering are assumptions, exercised not proved.",
    design_ref="DESIGN.md §8 C02, §13", note=ENGINE_NOTE),
  "C20": dict(
    engine="tie-B-engine",
@@ -177,7 +177,7 @@ CLAIMS = {
         "run_agg_eq_model_from, second_run_agg_view_each_once). Tied by compiled generated programs with count/sum/min/max/not at "
         "stratum depth 1-3 over every mix of bound / wildcard / aggregated columns, vs model and stratified naive oracle; F15 (caller duplicates) is a known finding whose "
         "bug-faithful model prediction is matched exactly; F2/F3 are fixed and their witnesses must pass.",
-   design_ref="DESIGN.md §8 C04", note=ENGINE_NOTE + " Aggregation over lattices and parallel mode (F5) are covered by the tie of C03/C02 only."),
+   design_ref="DESIGN.md §8 C04", note=ENGINE_NOTE + " Aggregation over lattices (serial: tie of this check; parallel: tie of C02, F5 fixed) is outside the theorems."),
  "C18": dict(
    engine="tie-C-ds",
    technique="Lean 4 theorems over models of uf.rs / trrel_union_find.rs + exhaustive and random op-history correspondence (tie C) + closure/partition oracle",
